@@ -12,6 +12,16 @@ class Absent:
 ABSENT = Absent()
 
 
+class Soft:
+    """a soft-optional member: may be absent even when its source was produced"""
+
+    def __init__(self, v):
+        self.v = v
+
+    def __repr__(self):
+        return "Soft(%r)" % (self.v,)
+
+
 def dec(j):
     """tagged JSON value -> python value (ints as int, maps/structs as dict, floats as ('f', hex))"""
     if j is None or isinstance(j, (bool, str)):
@@ -51,6 +61,10 @@ class EvalError(Exception):
     pass
 
 
+class Unsupported(Exception):
+    """the expression is outside the fragment the monitors evaluate: the case cannot be judged by them"""
+
+
 def ev(e, data):
     x = e.get("x")
     if x == "root":
@@ -67,7 +81,7 @@ def ev(e, data):
         return v[e["i"]]
     if x == "lit":
         return dec(e.get("v"))
-    raise EvalError("unsupported expression")
+    raise Unsupported(str(x))
 
 
 def path_of(e):
@@ -128,9 +142,10 @@ def resolve(inval, data):
         return ev(inval["e"], data)
     if k == "optional":
         try:
-            return ev(inval["e"], data)
+            v = ev(inval["e"], data)
         except EvalError:
             return ABSENT
+        return v if inval.get("wait", False) else Soft(v)
     if k == "ordisabled":
         try:
             v = ev(inval["e"], data)
@@ -171,10 +186,16 @@ def matches(expected, got, soft_paths=None):
     """expected may contain ("oneof", [alts]) nodes; optional fields are handled by the caller through variants"""
     if isinstance(expected, tuple) and expected and expected[0] == "oneof":
         return any(matches(a, got) for a in expected[1])
+    if isinstance(expected, Soft):
+        return got is None or matches(expected.v, got)
     if isinstance(expected, dict) and isinstance(got, dict):
-        if set(expected.keys()) != set(got.keys()):
-            return False
-        return all(matches(expected[k], got[k]) for k in expected)
+        for k, v in expected.items():
+            if k not in got:
+                if not isinstance(v, Soft):
+                    return False
+            elif not matches(v.v if isinstance(v, Soft) else v, got[k]):
+                return False
+        return all(k in expected for k in got)
     if isinstance(expected, list) and isinstance(got, list):
         return len(expected) == len(got) and all(matches(a, b) for a, b in zip(expected, got))
     return veq(expected, got)
@@ -202,7 +223,7 @@ def produced_at(case, seq=None):
         if sid not in steps:
             continue
         st = data["steps"][sid]
-        if e["ev"] == "deploy-fail" and e.get("out") == "scripted":
+        if e["ev"] == "deploy-fail":
             st["deploy_failed"] = {"error": {"error": ANYSTR}}
         elif e["ev"] == "exec-start":
             st["enabling"] = {"resolved": {"enabled": True}}
@@ -286,6 +307,13 @@ def slim(case):
 
 
 def mon_c02_engine(case, verdict, chk):
+    try:
+        _mon_c02_engine(case, verdict, chk)
+    except Unsupported:
+        chk.hist["monitor-skipped:unsupported-expression"] = chk.hist.get("monitor-skipped:unsupported-expression", 0) + 1
+
+
+def _mon_c02_engine(case, verdict, chk):
     """every plugin execution saw exactly the values its expressions denote over what was produced before it started"""
     steps = {s["id"]: s for s in case["wf"]["steps"]}
     for e in step_exec_starts(case):
@@ -299,8 +327,11 @@ def mon_c02_engine(case, verdict, chk):
             for p, optional, _ in refs(s["fields"][fld]):
                 if optional:
                     continue
+                # engine-generated stage outputs (starting.started, enabling.resolved, ...) are produced on the engine
+                # side slightly before the plugin-side log shows them: require them in the whole log only
+                when = data if (len(p) > 2 and p[0] == "steps" and p[2] == "outputs") or p[0] == "input" else produced_at(case)
                 try:
-                    ev_path(p, data)
+                    ev_path(p, when)
                 except EvalError:
                     chk.violation("C02:started-before-dependency", "step %s started before %s was produced" % (s["id"], ".".join(p)),
                                   {"kind": "impl-counterexample", "case": slim(case), "step": s["id"], "missing": p})
@@ -332,6 +363,13 @@ def ev_path(p, data):
 
 
 def mon_c04_engine(case, verdict, chk):
+    try:
+        _mon_c04_engine(case, verdict, chk)
+    except Unsupported:
+        chk.hist["monitor-skipped:unsupported-expression"] = chk.hist.get("monitor-skipped:unsupported-expression", 0) + 1
+
+
+def _mon_c04_engine(case, verdict, chk):
     """plugin code runs only for enabled steps all of whose prerequisites were produced"""
     steps = {s["id"]: s for s in case["wf"]["steps"]}
     for e in step_exec_starts(case):
@@ -375,6 +413,13 @@ def producible_outputs(case, data):
 
 
 def mon_c03_engine(case, verdict, chk):
+    try:
+        _mon_c03_engine(case, verdict, chk)
+    except Unsupported:
+        chk.hist["monitor-skipped:unsupported-expression"] = chk.hist.get("monitor-skipped:unsupported-expression", 0) + 1
+
+
+def _mon_c03_engine(case, verdict, chk):
     """the returned output is producible from what the steps produced and carries the data its expressions denote"""
     res = case.get("result", {})
     if not res.get("returned") or case.get("cancel_after_ms", -1) >= 0:
@@ -394,8 +439,10 @@ def mon_c03_engine(case, verdict, chk):
         return
     # an error was returned: no declared output may be producible
     hang = any(b.get("outcome") == "hang" for b in case.get("behaviours", {}).values())
+    cls = res.get("err_class", "")
+    if "evalFailed" in cls or cls == "invalidInput":
+        return  # a run-time evaluation failure / invalid input ends the whole run with an error (C07, C19)
     if prod and not hang:
-        cls = res.get("err_class", "")
         chk.violation("C03:error-although-output-producible:" + cls,
                       "the run returned error class %s although output(s) %s are producible from the step outcomes" % (cls, sorted(prod)),
                       {"kind": "impl-counterexample", "case": slim(case), "producible": sorted(prod)})
@@ -434,3 +481,12 @@ def mon_c08_engine(case, verdict, chk):
     if "bug" in res.get("err_class", "") or "bug:" in res.get("err", ""):
         chk.violation("C08:bug-error", "internal consistency error: %s" % res.get("err", "")[:200],
                       {"kind": "impl-counterexample", "case": slim(case)})
+
+
+def mon_c07_evalfail(case, verdict, chk):
+    """run-time evaluation failures must end the run with a returned error: no panic, no hang"""
+    mon_c07_engine(case, verdict, chk)
+    res = case.get("result", {})
+    if "panic" not in case and not res.get("returned"):
+        chk.violation("C07:no-return-after-evaluation-failure", "the run neither returned nor failed within 25 s",
+                      {"kind": "impl-counterexample", "case": slim(case), "dump": case.get("dump")})
